@@ -2,8 +2,11 @@ INIT Init
 NEXT Next
 CONSTANTS
   MaxLen = 3
+  Names <- McNames
+  Syms <- McSyms
 INVARIANT Accepts
 INVARIANT RejectsDropped
 INVARIANT RejectsAlwaysBlank
 INVARIANT RejectsPluralOne
+INVARIANT Examples
 CHECK_DEADLOCK FALSE
